@@ -50,39 +50,46 @@ def run(ctx: Context) -> None:
             ok = ((f"{da}.dims[0] != {prim}", True) in g and isinstance(st, ast.Assign) and norm_text(st.targets[0]) == da
                   and norm_text(trs[0].func.value) == da and not trs[0].args)
         ctx.check('R10.1', ok, "the table is transposed exactly when its first dimension is not the primary dimension", ti, trs[0] if trs else ti.node)
-        # the three-way masking
-        branch = None
-        for n in walk_no_nested(ti.node):
-            if isinstance(n, ast.If) and 'numpy.integer' in norm_text(n.test):
-                branch = n
-        ctx.need('R10.1', branch is not None, "_to_index_array distinguishes integer from floating point tables", ti)
-        t1 = norm_text(branch.test)
-        ok1 = t1 == 'not issubclass(values.dtype.type, numpy.integer)'
-        body1 = ' '.join(norm_text(s) for s in branch.body)
-        ok1 = ok1 and 'numpy.ma.masked_invalid(values)' in body1 and 'astype(self.sensible_dtype)' in body1
-        ctx.check('R10.1', ok1, "floating point tables: NaN entries are masked (masked_invalid) and the rest cast to the integer dtype", ti, branch,
-                  construct=f"float branch: {t1}")
-        # a float table opened without masking still has its padding as a finite value named by the attribute
-        unapplied = [st for st in branch.body if isinstance(st, ast.If) and norm_text(st.test) == f"'_FillValue' in {da}.attrs"
-                     and any(isinstance(c, ast.Call) and callee(ctx, ti, c) == 'numpy.ma.masked_equal' and len(c.args) == 2
-                             and norm_text(c.args[1]) == f"{da}.attrs['_FillValue']" for s_ in st.body for c in ast.walk(s_))]
-        inv = [st for st in branch.body if 'numpy.ma.masked_invalid(values)' in norm_text(st)]
-        casts = [st for st in branch.body if 'astype(self.sensible_dtype)' in norm_text(st)]
-        ok1b = len(unapplied) == 1 and bool(inv) and bool(casts) and inv[0].lineno < unapplied[0].lineno < casts[0].lineno
-        ctx.check('R10.1', ok1b, "floating point tables with a _FillValue attribute (opened with mask_and_scale=False, or written by a clip of a float mesh): entries equal to it are masked as well, before the cast", ti,
-                  unapplied[0] if unapplied else branch, construct="float branch: if '_FillValue' in attrs: masked_equal(masked, attrs['_FillValue'])")
-        ok2 = False
-        ok3 = False
-        if len(branch.orelse) == 1 and isinstance(branch.orelse[0], ast.If):
-            el = branch.orelse[0]
-            ok2 = norm_text(el.test) == f"'_FillValue' in {da}.attrs" and any(
-                isinstance(c, ast.Call) and callee(ctx, ti, c) == 'numpy.ma.masked_equal' and len(c.args) == 2
-                and norm_text(c.args[1]) == f"{da}.attrs['_FillValue']" for s in el.body for c in ast.walk(s))
-            eb = ' '.join(norm_text(s) for s in el.orelse)
-            ok3 = bool(el.orelse) and 'numpy.ma.masked_array(values' in eb and 'nomask' in eb
-        ctx.check('R10.1', ok2, "integer tables with a _FillValue attribute: entries equal to it are masked", ti, branch.orelse[0] if branch.orelse else branch,
-                  construct='elif `_FillValue` in attrs: masked_equal(values, attrs[_FillValue])')
-        ctx.check('R10.1', ok3, "otherwise nothing is masked (exhaustive third case)", ti, branch, construct='else: masked_array(values, mask=nomask)')
+        # the masking: decided by what is known on the path to each masking call (integer or not; fill attribute or not),
+        # however the branches are nested or ordered
+        from .common import facts as _facts
+        INT_FORMS = ('issubclass(values.dtype.type, numpy.integer)', f'issubclass({da}.values.dtype.type, numpy.integer)',
+                     'numpy.issubdtype(values.dtype, numpy.integer)', f'numpy.issubdtype({da}.dtype, numpy.integer)')
+        FILL = f"'_FillValue' in {da}.attrs"
+
+        def where(node):
+            fs = _facts(ctx, ti, node)
+            is_int = next((pol for t, pol in fs if t in INT_FORMS), None)
+            has_fill = next((pol for t, pol in fs if t == FILL), None)
+            other = sorted((t, pol) for t, pol in fs if t not in INT_FORMS and t != FILL and 'dims' not in t)
+            return is_int, has_fill, other
+        calls_ = calls_in(ti)
+        invalid = [c for c in calls_ if callee(ctx, ti, c) == 'numpy.ma.masked_invalid']
+        equal = [c for c in calls_ if callee(ctx, ti, c) == 'numpy.ma.masked_equal' and len(c.args) == 2 and norm_text(c.args[1]) == f"{da}.attrs['_FillValue']"]
+        plain = [c for c in calls_ if callee(ctx, ti, c) == 'numpy.ma.masked_array']
+        casts = [c for c in calls_ if isinstance(c.func, ast.Attribute) and c.func.attr == 'astype' and norm_text(c.args[0] if c.args else ast.Constant(None)) == 'self.sensible_dtype']
+        ctx.need('R10.1', bool(invalid) and bool(equal) and bool(plain) and bool(casts), "_to_index_array distinguishes integer from floating point tables", ti)
+        branch = stmt_top = None
+        for st_ in ti.node.body:
+            if any(x is invalid[0] for x in ast.walk(st_)):
+                branch = st_
+        w_inv = [where(c) for c in invalid]
+        ok1 = len(invalid) == 1 and w_inv[0][0] is False and not w_inv[0][2] and len(casts) == 1 and where(casts[0])[0] is False and not where(casts[0])[2] \
+            and where(casts[0])[1] is None and w_inv[0][1] is None
+        ctx.check('R10.1', ok1, "floating point tables: NaN entries are masked (masked_invalid) and the rest cast to the integer dtype, whatever else is known", ti, invalid[0],
+                  construct=f"masked_invalid known-facts {w_inv}; cast {[where(c) for c in casts]}")
+        w_eq = [where(c) for c in equal]
+        float_fill = [c for c, w in zip(equal, w_eq) if w[0] in (False, None) and w[1] is True and not w[2]]
+        int_fill = [c for c, w in zip(equal, w_eq) if w[0] in (True, None) and w[1] is True and not w[2]]
+        ok1b = bool(float_fill) and invalid[0].lineno < float_fill[0].lineno < casts[0].lineno and len(equal) == len(set(float_fill) | set(int_fill))
+        ctx.check('R10.1', ok1b, "floating point tables with a _FillValue attribute (opened with mask_and_scale=False, or written by a clip of a float mesh): entries equal to it are masked as well, "
+                  "after the NaN masking and before the cast", ti, float_fill[0] if float_fill else invalid[0],
+                  construct=f"masked_equal(…, attrs['_FillValue']) known-facts {w_eq}")
+        ctx.check('R10.1', bool(int_fill), "integer tables with a _FillValue attribute: entries equal to it are masked", ti, int_fill[0] if int_fill else equal[0],
+                  construct=f"masked_equal(…, attrs['_FillValue']) known-facts {w_eq}")
+        w_pl = [where(c) for c in plain]
+        ok3 = len(plain) == 1 and w_pl[0][0] is True and w_pl[0][1] is False and not w_pl[0][2] and 'nomask' in ' '.join(norm_text(s_) for s_ in walk_no_nested(ti.node) if isinstance(s_, ast.Assign))
+        ctx.check('R10.1', ok3, "an integer table without the attribute has nothing masked (exhaustive third case)", ti, plain[0], construct=f"masked_array(values, mask=nomask) known-facts {w_pl}")
         # masking sees the RAW values; start_index is subtracted afterwards
         subs = [n for n in walk_no_nested(ti.node) if isinstance(n, ast.Assign) and isinstance(n.value, ast.BinOp) and isinstance(n.value.op, ast.Sub)
                 and flow.reaches(n.value.right, lambda m: isinstance(m, ast.Call) and callee(ctx, ti, m) == f"{UGRID}._get_start_index")]
